@@ -441,6 +441,28 @@ func pickEngine(c *Ctx) {
 			c.PropFail("pick-wrong-error", "a reachable ca+file warehouse that lacks the ware (a regular file sits where a chunk directory would be) answers "+r+" instead of ware-not-found", op)
 		}
 	}
+	// one location string, two warehouses: "file://D" is the single object D, "ca+file://D" is the content-addressed layout
+	// below D. A list may hold both (a mirror moved from one layout to the other); each is asked in its turn
+	{
+		dm := filepath.Join(env.root, "two-modes", "wh")
+		os.MkdirAll(filepath.Join(dm, pickHash[0:3], pickHash[3:6]), 0755)
+		os.WriteFile(filepath.Join(dm, pickHash[0:3], pickHash[3:6], pickHash), []byte("W-two-modes"), 0644)
+		dead := api.WarehouseLocation(env.deadURL + "/x")
+		for k, l := range [][]api.WarehouseLocation{
+			{api.WarehouseLocation("file://" + dm), api.WarehouseLocation("ca+file://" + dm)},
+			{dead, api.WarehouseLocation("file://" + dm), api.WarehouseLocation("ca+file://" + dm), dead},
+			{api.WarehouseLocation("ca+file://" + dm), api.WarehouseLocation("file://" + dm)},
+			{api.WarehouseLocation("file://" + dm), api.WarehouseLocation("file://" + dm), api.WarehouseLocation("ca+file://" + dm)},
+		} {
+			op := fmt.Sprintf("pick-two-modes %d", k)
+			r := pickDirect(api.WareID{Type: "tar", Hash: pickHash}, l)
+			c.EmitR(op, "skip", "skip")
+			c.H("two-modes:" + r)
+			if !strings.HasPrefix(r, "opened") {
+				c.PropFail("pick-holder-not-served", fmt.Sprintf("the list %v holds a content-addressed warehouse that has the ware (the same directory is also listed as a single-ware address, which lacks it); the fetch answered %s", l, r), op)
+			}
+		}
+	}
 	// a warehouse controller is a value: asking it for the ware a second time gives the ware again (http, ca+http, ca+file)
 	{
 		caDir := filepath.Join(env.root, "reopen-ca")
